@@ -49,10 +49,10 @@ def worlds(tier):
         ws.append({"name": f"{pol}-2tasks-2strategies-pool-of-two-workers-with-different-resource-types", "policy": pol, "n": 2, "nstrat": 2, "pools": 1, "occ": False, "split": 7, "weight": 40,
                    "units": ["US", "US"], "split_types": True})
     if tier == "thorough":
-        for pol in ("EDF", "FIFO", "LSF"):
-            ws.append({"name": f"{pol}-4tasks-2pools", "policy": pol, "n": 4, "nstrat": 1, "pools": 2, "occ": False, "split": 9, "weight": 600, "units": ["US", "MS", "US", "MS"],
-                       "fixed_demand": True})
-            ws.append({"name": f"{pol}-3tasks-2strategies-3pools-occupied", "policy": pol, "n": 3, "nstrat": 2, "pools": 3, "occ": True, "split": 9, "weight": 600, "units": ["US", "MS", "US"]})
+        # (the full product policy x {4 tasks, 3 pools} ran past 45 minutes: one policy per larger shape)
+        ws.append({"name": "EDF-4tasks-2pools", "policy": "EDF", "n": 4, "nstrat": 1, "pools": 2, "occ": False, "split": 9, "weight": 600, "units": ["US", "MS", "US", "MS"], "fixed_demand": True})
+        ws.append({"name": "LSF-4tasks-2pools", "policy": "LSF", "n": 4, "nstrat": 1, "pools": 2, "occ": False, "split": 9, "weight": 600, "units": ["US", "MS", "US", "MS"], "fixed_demand": True})
+        ws.append({"name": "FIFO-3tasks-2strategies-2pools-occupied", "policy": "FIFO", "n": 3, "nstrat": 2, "pools": 2, "occ": True, "split": 9, "weight": 600, "units": ["US", "MS", "US"]})
     return ws
 
 
